@@ -81,6 +81,19 @@ def install(R):
             eng.emit(f2, f"{name}.step{k}_{what}", f, kind="guar", line=getattr(node, "lineno", None))
     R.symbols["rg_after"] = rg_after
 
+    def mentions_uuid(t):
+        seen = set()
+        stack = [t]
+        while stack:
+            x = stack.pop()
+            if not z3.is_app(x) or x.get_id() in seen:
+                continue
+            seen.add(x.get_id())
+            if "uuid.uuid4" in x.decl().name():
+                return True
+            stack.extend(x.children())
+        return False
+
     def own(st):
         g = st.ghost
         if "FS_own" not in g:
@@ -109,8 +122,9 @@ def install(R):
             g["FS_ex"] = SV("z3", z3.Store(g["FS_ex"].t, pv, z3.BoolVal(True)))
             g["FS_ok"] = SV("z3", z3.Store(g["FS_ok"].t, pv, z3.BoolVal(False)))
             g["FS_ct"] = SV("z3", z3.Store(g["FS_ct"].t, pv, z3.Const(fresh_name("partial"), V)))
-            if shows_tmp(pv):
-                # a scratch name made unique by a fresh uuid: this activation owns it (no other process opens it: assumed)
+            if shows_tmp(pv) and mentions_uuid(pv):
+                # a scratch name made unique by a fresh uuid4: this activation owns it (no other process opens it: assumed).
+                # A scratch name without a uuid (e.g. fname + ".tmp") is shared with every other writer of the same file.
                 g["FS_own"] = SV("z3", z3.Store(own(st), pv, z3.BoolVal(True)))
             fs_step(eng, fr, "open_w", path, node, pre)
             s2 = st.fork()
